@@ -278,6 +278,18 @@ M('c02-no-compensation', ['C02', 'C14', 'C16'], ['R2.9', 'R14.2', 'R16.4'], [(FB
   "                # Don't leave a partially written cache file behind. (The old\n"
   "                # cache file, if any, is in _backups at this point.)\n"
   "                FileBuilder._try_to_remove_file(cache_filename)\n", "")])
+M('c02-writer-temp-file-not-compensated', ['C02', 'C14', 'C16'],
+  ['R2.9', 'R14.2', 'R16.4'], [(CA,
+  "        with gzip.open(filename, 'wt') as file_:\n"
+  "            # Sort keys in order to improve compression\n"
+  "            file_.write(\n"
+  "                json.dumps(cache_json, separators=(',', ':'), sort_keys=True))\n",
+  "        temp_filename = filename + '.tmp'\n"
+  "        with gzip.open(temp_filename, 'wt') as file_:\n"
+  "            file_.write(\n"
+  "                json.dumps(cache_json, separators=(',', ':'), sort_keys=True))\n"
+  "        os.replace(temp_filename, filename)\n")],
+  'the writer creates <name>.tmp, the failure handler removes only <name>')
 M('c02-write-outside-try', ['C02', 'C14'], ['R2.1', 'R14.2'], [(FB,
   "            self._new_cache.write(cache_filename)\n"
   "            logger.info('Wrote cache file {:s}'.format(cache_filename))\n"
